@@ -122,3 +122,61 @@ Example proton_frame_without_middle_rejected :
           [8000; -4000; 500; -1500; 500; -500; 500; -1500; 500; -500; 500; -500; 500; -1500; 500; -500; 500; -1500; 500;
            500; -500; 500; -500; 500; -1500; 500; -1500; 500; -1500; 500; -1500; 500; -500; 500; -500; 500; -22000] = IRErr IRStreamError.
 Proof. vm_compute. reflexivity. Qed.
+
+(* ---- what the loop writes into the normalised code: nominal durations only.  Every duration the data loop appends to
+   cleaned_code is an entry of the symbol table or of a middle tuple - never a received duration (the decoded code's
+   normalised timings are the protocol's own constants, whatever was received within the windows). *)
+Definition nominal (t : ptable) (mids : list (Z * Z)) (x : Z) : Prop :=
+  In x (vals t) \/ In x (flat_map (fun p => [fst p; snd p]) mids).
+
+Lemma nominal_mark t mids mark space : In (mark, space) t -> nominal t mids mark.
+Proof. intros H. left. unfold vals. apply in_flat_map. exists (mark, space). split; [exact H|left; reflexivity]. Qed.
+Lemma nominal_space t mids mark space : In (mark, space) t -> nominal t mids space.
+Proof. intros H. left. unfold vals. apply in_flat_map. exists (mark, space). split; [exact H|right; left; reflexivity]. Qed.
+Lemma nominal_m t mids m s : In (m, s) mids -> nominal t mids m.
+Proof. intros H. right. apply in_flat_map. exists (m, s). split; [exact H|left; reflexivity]. Qed.
+Lemma nominal_s t mids m s : In (m, s) mids -> nominal t mids s.
+Proof. intros H. right. apply in_flat_map. exists (m, s). split; [exact H|right; left; reflexivity]. Qed.
+
+(* the cleaned list grows by prepending nominal durations to the old one *)
+Definition extends (t : ptable) (mids : list (Z * Z)) (old new : list Z) : Prop :=
+  exists added, new = added ++ old /\ Forall (nominal t mids) added.
+
+Lemma extends_refl t mids l : extends t mids l l.
+Proof. exists []. split; [reflexivity|constructor]. Qed.
+Lemma extends_trans t mids a b c : extends t mids a b -> extends t mids b c -> extends t mids a c.
+Proof.
+  intros [x [-> Hx]] [y [-> Hy]]. exists (y ++ x). split; [rewrite app_assoc; reflexivity|apply Forall_app; split; assumption].
+Qed.
+Lemma extends_1 t mids l x : nominal t mids x -> extends t mids l (x :: l).
+Proof. intros H. exists [x]. split; [reflexivity|constructor; [exact H|constructor]]. Qed.
+Lemma extends_2 t mids l x y : nominal t mids x -> nominal t mids y -> extends t mids l (x :: y :: l).
+Proof. intros Hx Hy. exists [x; y]. split; [reflexivity|constructor; [exact Hx|constructor; [exact Hy|constructor]]]. Qed.
+
+Lemma check_timing_clean tol t mids mark space m s d next st st' :
+  In (mark, space) t -> In (m, s) mids ->
+  check_timing tol mark space m s d next st = MidHit st' -> extends t mids (ht_clean st) (ht_clean st').
+Proof.
+  intros Ht Hm. pose proof (nominal_mark t mids _ _ Ht) as Nmark. pose proof (nominal_space t mids _ _ Ht) as Nspace.
+  pose proof (nominal_m t mids _ _ Hm) as Nm. pose proof (nominal_s t mids _ _ Hm) as Ns.
+  unfold check_timing. intros H.
+  repeat match type of H with
+         | (if ?c then _ else _) = _ => destruct c
+         | match ?x with _ => _ end = _ => destruct x
+         | MidHit _ = MidHit _ => injection H as <-; cbn [ht_clean]
+         | MidMiss = MidHit _ => discriminate H
+         | MidIdx = MidHit _ => discriminate H
+         end;
+  first [ apply extends_1; assumption | apply extends_2; assumption ].
+Qed.
+
+Lemma check_middles_clean tol t mids mark space d next st : In (mark, space) t ->
+  forall iter st', incl iter mids -> check_middles tol mark space iter d next st = MidHit st' ->
+  extends t mids (ht_clean st) (ht_clean st').
+Proof.
+  intros Ht. induction iter as [|[m s] r IH]; intros st' Hi H; cbn [check_middles] in H; [discriminate|].
+  destruct (check_timing tol mark space m s d next st) eqn:E.
+  - injection H as <-. eapply check_timing_clean; [exact Ht| |exact E]. apply Hi. left. reflexivity.
+  - apply IH; [intros x Hx; apply Hi; right; exact Hx|exact H].
+  - discriminate.
+Qed.
